@@ -113,7 +113,8 @@ fn stress(seed: u64, j: usize, readers: usize, millis: u64, mode: u64) -> Outcom
     tcfg.max_rounds = None;
     tcfg.max_ttl = 10;
     tcfg.max_samples = 8;
-    tcfg.max_flows = if cell.strategy == MultipathStrategy::Classic { 1 } else { 8 };
+    // (clear-storm runs keep the flow registry at its limit, so that every round meets the limit)
+    tcfg.max_flows = if cell.strategy == MultipathStrategy::Classic || j % 2 == 1 { 1 } else { 8 };
     let dist = r.range(2, 7) as usize;
     let hops: Vec<HopSpec> = (0..dist - 1)
         .map(|h| {
@@ -206,10 +207,21 @@ fn stress(seed: u64, j: usize, readers: usize, millis: u64, mode: u64) -> Outcom
         // the clearer
         let (tr, clears2, stop2) = (tracer.clone(), clears.clone(), stop.clone());
         let cseed = r.next_u64();
+        let storm = j % 2 == 1;
         sc.spawn(move || {
             let mut r = Prng::new(cseed);
             while !stop2.load(Ordering::Relaxed) {
-                std::thread::sleep(std::time::Duration::from_micros(r.range(200, 20_000)));
+                // (every third run clears in rapid succession: many clears land next to a round)
+                if storm {
+                    let us = r.range(0, 120);
+                    if us < 20 {
+                        std::thread::yield_now();
+                    } else {
+                        std::thread::sleep(std::time::Duration::from_micros(us));
+                    }
+                } else {
+                    std::thread::sleep(std::time::Duration::from_micros(r.range(200, 20_000)));
+                }
                 if stop2.load(Ordering::Relaxed) {
                     break;
                 }
@@ -375,7 +387,7 @@ fn stress(seed: u64, j: usize, readers: usize, millis: u64, mode: u64) -> Outcom
 
 pub fn run(tier: Tier, seed: u64, only: Option<usize>) -> i32 {
     let mut rep = Report::new("C20", "exploration", tier, seed);
-    rep.rule = "run = one real tracer (real RwLock<State>, real Strategy over the simulated world in virtual time, 10 ms rounds, Paris/Dublin cells register flows) on its own OS thread + R in {1,4,12} reader threads calling Tracer::snapshot() in a loop + one thread calling Tracer::clear() every 0.2..20 ms, for 0.7 s (thorough 8 s) of wall time per run; every operation is stamped from one atomic counter before the call and after the return, the publish callback stamps and copies every round; failpoints between the default-flow and per-flow update and around the lock scopes yield / sleep at random; offline, every snapshot reporting n rounds with latest id b must hash (all getters of all flows, floats by bit pattern) to the state obtained by applying rounds b-n+1..=b to an empty State with the real single-threaded code, and the stamps must allow that linearisation (not stale, not from the future, missing prefix explained by a clear, no clear entirely between); runs execute one at a time (they use all cores themselves); non-trivial = at least one snapshot overlapped the application of a round and at least one followed a clear".into();
+    rep.rule = "run = one real tracer (real RwLock<State>, real Strategy over the simulated world in virtual time, 10 ms rounds, Paris/Dublin cells register flows) on its own OS thread + R in {1,4,12} reader threads calling Tracer::snapshot() in a loop + one thread calling Tracer::clear() every 0.2..20 ms (every other run: every 0..120 us, with max-flows 1), for 0.7 s (thorough 8 s) of wall time per run; every operation is stamped from one atomic counter before the call and after the return, the publish callback stamps and copies every round; failpoints between the default-flow and per-flow update and around the lock scopes yield / sleep at random; offline, every snapshot reporting n rounds with latest id b must hash (all getters of all flows, floats by bit pattern) to the state obtained by applying rounds b-n+1..=b to an empty State with the real single-threaded code, and the stamps must allow that linearisation (not stale, not from the future, missing prefix explained by a clear, no clear entirely between); runs execute one at a time (they use all cores themselves); non-trivial = at least one snapshot overlapped the application of a round and at least one followed a clear".into();
     rep.assumptions = vec![
         "application intervals of rounds are bracketed by the publish callback stamps of rounds k-1 and k (conservative: can only make the checker more permissive)".into(),
         "interleavings come from the OS scheduler on 16 cores plus the failpoint delays; coverage is reported as counts of snapshots that overlapped a round application / followed a clear".into(),
@@ -384,6 +396,7 @@ pub fn run(tier: Tier, seed: u64, only: Option<usize>) -> i32 {
     let runs = tier.pick(6, 24);
     let millis = tier.pick(700, 8_000);
     let plan = |j: usize| ([1usize, 4, 12][j % 3], [1u64, 2, 0][(j / 3) % 3]);
+    let millis = if tier == Tier::Quick { 900 } else { millis };
     match only {
         Some(j) => {
             let (rd, mode) = plan(j);
